@@ -44,6 +44,11 @@ _OPS = ("<", "<=", "==", "!=", ">=", ">")
 _SYMBOLS = [[k1, k2, v] for k1 in "aA" for k2 in "ab" for v in ("x", "z")] + [["a"]]
 
 
+# key values that some way of comparing texts takes for the same: different halves of surrogate pairs (what a lenient
+# decoder makes of bytes it cannot read), composed and decomposed letters, characters that differ in case only in
+# some languages, trailing blanks, text and number spellings of the same number
+_TWIN_SYMBOLS = [[k1, "k", "x"] for k1 in ("M\udce4", "M\udcf6", "M?", "e\u0301", "\u00e9", "\u0130", "i", "1", "1.0",
+                                           "01", "a ", "a")]
 _EMPTY_SYMBOLS = [[k1, k2, v] for k1 in ("", "a") for k2 in ("", "a") for v in ("x", "z")]
 
 
@@ -188,8 +193,10 @@ def _sweep_shard(args):
     from vlib.runner import Sub
 
     index, count, max_len = args[:3]
-    empty = len(args) > 3 and args[3]
+    empty = len(args) > 3 and args[3] is True
     alphabet = _EMPTY_SYMBOLS if empty else _SYMBOLS
+    if len(args) > 3 and args[3] == "twins":
+        alphabet = _TWIN_SYMBOLS
     sub = Sub("sweep")
     evals = nontrivial = number = 0
     classes = {}
@@ -373,6 +380,8 @@ def run(ctx):
     ctx.par(_sweep_shard, [(i, shards, max_len) for i in range(shards)])
     # the same sweep over keys that may be empty (both key fields allowed to be empty; 8 row symbols)
     ctx.par(_sweep_shard, [(i, shards, max_len, True) for i in range(shards)])
+    # ... and over twelve keys that are different texts but close relatives (sequences up to length 3)
+    ctx.par(_sweep_shard, [(i, shards, 3, "twins") for i in range(shards)])
     ctx.hyp("generated", cases, check_case, ctx.n(1500, 40000))
 
 
